@@ -198,6 +198,12 @@ fn build_len_msg(lens: &[usize], id: [u8; 12]) -> stun_rs::StunMessage {
 
 fn enc_record(lens: &[usize], buf: usize, prefill: u8, big: &Option<Vec<u8>>, id: [u8; 12]) -> Value {
     let msg = build_len_msg(lens, id);
+    enc_record_msg(&msg, json!(lens), json!([]), false, buf, prefill, big, id)
+}
+
+#[allow(clippy::too_many_arguments)]
+fn enc_record_msg(msg: &stun_rs::StunMessage, lens: Value, attrs: Value, use_attrs: bool, buf: usize, prefill: u8,
+                  big: &Option<Vec<u8>>, id: [u8; 12]) -> Value {
     let mut buffer = vec![prefill; buf];
     let enc = stun_rs::MessageEncoderBuilder::default().build();
     let r = catch_unwind(AssertUnwindSafe(|| enc.encode(&mut buffer, &msg)));
@@ -213,8 +219,35 @@ fn enc_record(lens: &[usize], buf: usize, prefill: u8, big: &Option<Vec<u8>>, id
             ("ok", sz as i64, tail_ok, same)
         }
     };
-    json!({"op":"enc","lens":lens,"buf":buf,"prefill":prefill,"res":res,"size":size,
-           "tail_ok":tail_ok,"same":same,"have_big":big.is_some()})
+    json!({"op":"enc","lens":lens,"attrs":attrs,"use_attrs":use_attrs,"txid":bytes_json(&id),"buf":buf,
+           "prefill":prefill,"res":res,"size":size,"tail_ok":tail_ok,"same":same,"have_big":big.is_some()})
+}
+
+/// message of zoo attributes (+ optional tail); returns the message and its logical description
+fn zoo_msg(rng: &mut StdRng, id: [u8; 12]) -> Option<(stun_rs::StunMessage, Value)> {
+    use stun_rs::attributes::stun::{Fingerprint, MessageIntegrity, MessageIntegritySha256};
+    let kinds: Vec<&str> = body_kinds().into_iter().filter(|k| *k != "Padding").collect();
+    let na = rng.random_range(1..=4usize);
+    let mut b = stun_rs::StunMessageBuilder::new(stun_rs::methods::BINDING, stun_rs::MessageClass::Request)
+        .with_transaction_id(stun_rs::TransactionId::from(id));
+    let mut logical = Vec::new();
+    for _ in 0..na {
+        let k = kinds[rng.random_range(0..kinds.len())];
+        let v = zoo::generate(k, rng, usize::MAX);
+        let a = zoo::construct(k, &v).ok()?;
+        b = b.with_attribute(a);
+        logical.push(json!({"kind":k,"fields":strip_helpers(k, &v)}));
+    }
+    let key = HMACKey::new_short_term("buffers-key").unwrap();
+    for t in TAILS[rng.random_range(0..TAILS.len())] {
+        b = match *t {
+            "MessageIntegrity" => b.with_attribute(MessageIntegrity::new(key.clone())),
+            "MessageIntegritySha256" => b.with_attribute(MessageIntegritySha256::new(key.clone())),
+            _ => b.with_attribute(Fingerprint::default()),
+        };
+        logical.push(json!({"kind":t,"fields":{}}));
+    }
+    Some((b.build(), Value::Array(logical)))
 }
 
 /// reference encoding into a large, differently pre-filled buffer (None if that fails)
@@ -244,6 +277,33 @@ fn cmd_buffers(args: &[String]) {
     if !cases.is_empty() {
         let v: Value = serde_json::from_str(&std::fs::read_to_string(&cases).unwrap()).unwrap();
         for c in v["cases"].as_array().cloned().unwrap_or_default() {
+            if c["use_attrs"].as_bool().unwrap_or(false) {
+                use stun_rs::attributes::stun::{Fingerprint, MessageIntegrity, MessageIntegritySha256};
+                let key = HMACKey::new_short_term("buffers-key").unwrap();
+                let mut b = stun_rs::StunMessageBuilder::new(stun_rs::methods::BINDING, stun_rs::MessageClass::Request)
+                    .with_transaction_id(stun_rs::TransactionId::from(id));
+                for a in c["attrs"].as_array().cloned().unwrap_or_default() {
+                    let k = a["kind"].as_str().unwrap_or("");
+                    b = match k {
+                        "MessageIntegrity" => b.with_attribute(MessageIntegrity::new(key.clone())),
+                        "MessageIntegritySha256" => b.with_attribute(MessageIntegritySha256::new(key.clone())),
+                        "Fingerprint" => b.with_attribute(Fingerprint::default()),
+                        _ => match zoo::construct(k, &a["fields"]) { Ok(x) => b.with_attribute(x), Err(_) => b },
+                    };
+                }
+                let msg = b.build();
+                let enc = stun_rs::MessageEncoderBuilder::default().build();
+                let mut bigbuf = vec![0x5Au8; 9000];
+                let big = match catch_unwind(AssertUnwindSafe(|| enc.encode(&mut bigbuf, &msg))) {
+                    Ok(Ok(need)) => Some(bigbuf[..need].to_vec()),
+                    _ => None,
+                };
+                let r = enc_record_msg(&msg, json!([]), c["attrs"].clone(), true, c["buf"].as_u64().unwrap() as usize,
+                                       c["prefill"].as_u64().unwrap_or(0) as u8, &big, id);
+                writeln!(f, "{}", r).unwrap();
+                n += 1;
+                continue;
+            }
             let lens: Vec<usize> = c["lens"].as_array().unwrap().iter().map(|x| x.as_u64().unwrap() as usize).collect();
             let big = big_encoding(&lens, id);
             let r = enc_record(&lens, c["buf"].as_u64().unwrap() as usize, c["prefill"].as_u64().unwrap_or(0) as u8, &big, id);
@@ -264,6 +324,22 @@ fn cmd_buffers(args: &[String]) {
         for buf in 0..=need + 8 {
             for prefill in [0x00u8, 0xFF, rng.random()] {
                 writeln!(f, "{}", enc_record(&lens, buf, prefill, &big, id)).unwrap();
+                n += 1;
+            }
+        }
+    }
+    // messages made of every attribute kind (nested encoders, inner padding, post-encode hooks)
+    for _ in 0..small {
+        let Some((msg, logical)) = zoo_msg(&mut rng, id) else { continue };
+        let enc = stun_rs::MessageEncoderBuilder::default().build();
+        let mut bigbuf = vec![0x5Au8; 9000];
+        let Ok(Ok(need)) = catch_unwind(AssertUnwindSafe(|| enc.encode(&mut bigbuf, &msg))) else { continue };
+        if need > 1500 { continue; }
+        let big = Some(bigbuf[..need].to_vec());
+        nmsg += 1;
+        for buf in (0..=need + 8).filter(|b| need < 200 || *b < 24 || *b + 12 >= need || b % 7 == 0) {
+            for prefill in [0x00u8, 0xFF, rng.random()] {
+                writeln!(f, "{}", enc_record_msg(&msg, json!([]), logical.clone(), true, buf, prefill, &big, id)).unwrap();
                 n += 1;
             }
         }
